@@ -6,7 +6,7 @@ PATCH="$(readlink -f "$1")"; shift
 cd /repo || exit 2
 if ! git diff --quiet; then echo "/repo working tree not clean" >&2; exit 2; fi
 if ! git apply "$PATCH"; then echo "patch does not apply" >&2; exit 2; fi
-trap 'git -C /repo checkout -- . ; git -C /repo clean -fdq src' EXIT
+trap 'git -C /repo checkout -- . ; git -C /repo clean -fdq src; (cd /verif/harness && cargo build --release --offline >/dev/null 2>&1)' EXIT
 for P in "$@"; do
   OUT=$(VERIF_OUT=/tmp/vmut /verif/run.sh "$P" quick 2>&1); RC=$?
   echo "== $P rc=$RC: $(echo "$OUT" | grep -E '^(VIOLATION|violation|OK|INCONCLUSIVE|BUILD-FAILED)' | head -3 | tr '\n' ' ')"
